@@ -93,6 +93,7 @@ func c02Eval(c c02Case) (ok bool, sig, detail string) {
 		if !dok {
 			return false, "malformed-location", fmt.Sprintf("%s(%s,i=%d,n=%d) = %s is not a well-formed location", c.Op, loc, c.I, c.N, locdom.Encode(f.Loc))
 		}
+		engine.Outcome(printLoc(f.Loc))
 		if !eqWithSiteLeniency(exp, obs, c.I, c.N) {
 			return false, "denotation", fmt.Sprintf("%s(%s,i=%d,n=%d) = %s denotes %s, want %s", c.Op, loc, c.I, c.N, printLoc(f.Loc), obs, exp)
 		}
